@@ -329,7 +329,24 @@ func Gen(r *mon.Rand, o GenOpts) *GraphSpec {
 	if o.Mode == Pregel && r.Prob(o.MaxStepsProb) {
 		g.MaxSteps = 1 + r.Intn(n+4)
 	}
+	if o.Prefix == "" {
+		FixNames(g, "")
+	}
 	return g
+}
+
+// FixNames sets the Name of every nested graph to its full path of graph-node keys.
+func FixNames(g *GraphSpec, name string) {
+	g.Name = name
+	for i := range g.Nodes {
+		if g.Nodes[i].Sub != nil {
+			sub := g.Nodes[i].Key
+			if name != "" {
+				sub = name + "/" + sub
+			}
+			FixNames(g.Nodes[i].Sub, sub)
+		}
+	}
 }
 
 // staticKeys returns the statically known output keys of a node, or nil.
